@@ -175,7 +175,7 @@ func creations64() []creation64 {
 func c07Scenario64(c *Ctx) explore.Scenario {
 	pool := pool64(true)
 	if c.Quick() {
-		pool = []recipe64{pool[0], pool[1], pool[3], pool[4], pool[5], pool[7], pool[10], pool[12]}
+		pool = pool64Named(true, "{}", "{0}", "{bucket0: few, bucket1: few}", "{range across 2^32}", "{bucket1 big run, bucket2 stripe}", "{buckets 0,2,0xFFFFFFFF}", "{buckets 0..3 one value each}", "{2^64-1}+opt")
 	}
 	crs := creations64()
 	maxWrites := 20
